@@ -69,7 +69,8 @@ def _docx() -> bytes:
                    for s, t in [("Heading1", "Alpha heading"), ("Normal", "first paragraph"), ("Quote", "second 123"), ("Normal", "third"),
                                 ("ListParagraph", "item"), ("Title", "a title")])
     tbl = ('<w:tbl><w:tr><w:tc><w:p><w:r><w:t>a</w:t></w:r></w:p></w:tc><w:tc><w:p><w:r><w:t>b</w:t></w:r></w:p></w:tc></w:tr>'
-           '<w:tr><w:tc><w:p><w:r><w:t>1</w:t></w:r></w:p></w:tc><w:tc><w:p><w:r><w:t>2</w:t></w:r></w:p></w:tc></w:tr></w:tbl>')
+           '<w:tr><w:tc><w:p><w:r><w:t>1</w:t></w:r></w:p></w:tc><w:tc><w:p><w:r><w:t>2</w:t></w:r></w:p></w:tc>'
+           '<w:tc><w:p><w:r><w:t>3</w:t></w:r></w:p></w:tc></w:tr><w:tr><w:tc><w:p><w:r><w:t>x</w:t></w:r></w:p></w:tc></w:tr></w:tbl>')
     doc = f'<?xml version="1.0" encoding="UTF-8"?><w:document {W}><w:body>{body}{tbl}<w:sectPr/></w:body></w:document>'
     return _zip([("[Content_Types].xml", CT.encode()), ("_rels/.rels", RELS.encode()), ("word/document.xml", doc.encode()),
                  ("docProps/core.xml", CORE.encode())])
@@ -88,6 +89,30 @@ ODF_META = (f'<?xml version="1.0" encoding="UTF-8"?><office:document-meta {ODF_N
             '<dc:title>Sim Title</dc:title><meta:initial-creator>Sim Author</meta:initial-creator><dc:creator>Sim Author</dc:creator>'
             '<dc:subject>Sim Subject</dc:subject><meta:keyword>k1</meta:keyword><dc:description>Sim Description</dc:description>'
             '<meta:creation-date>2024-01-02T03:04:05</meta:creation-date></office:meta></office:document-meta>')
+
+
+XLSX_CT = ('<?xml version="1.0" encoding="UTF-8"?><Types xmlns="http://schemas.openxmlformats.org/package/2006/content-types">'
+           '<Default Extension="rels" ContentType="application/vnd.openxmlformats-package.relationships+xml"/><Default Extension="xml" ContentType="application/xml"/>'
+           '<Override PartName="/xl/workbook.xml" ContentType="application/vnd.openxmlformats-officedocument.spreadsheetml.sheet.main+xml"/>'
+           '<Override PartName="/xl/worksheets/sheet1.xml" ContentType="application/vnd.openxmlformats-officedocument.spreadsheetml.worksheet+xml"/>'
+           '<Override PartName="/docProps/core.xml" ContentType="application/vnd.openxmlformats-package.core-properties+xml"/></Types>')
+SS = 'xmlns="http://schemas.openxmlformats.org/spreadsheetml/2006/main"'
+
+
+def _xlsx_ragged() -> bytes:
+    """worksheet without a <dimension> element whose rows have different lengths"""
+    def c(ref, v):
+        return f'<c r="{ref}" t="inlineStr"><is><t>{v}</t></is></c>'
+    rows = ('<row r="1">' + c("A1", "h1") + c("B1", "h2") + '</row><row r="2">' + c("A2", "a") + c("B2", "b") + c("C2", "c") + c("D2", "d") + '</row>'
+            '<row r="3">' + c("A3", "only") + '</row>')
+    sheet = f'<?xml version="1.0" encoding="UTF-8"?><worksheet {SS}><sheetData>{rows}</sheetData></worksheet>'
+    wb = (f'<?xml version="1.0" encoding="UTF-8"?><workbook {SS} xmlns:r="http://schemas.openxmlformats.org/officeDocument/2006/relationships">'
+          '<sheets><sheet name="Ragged" sheetId="1" r:id="rId1"/></sheets></workbook>')
+    wrels = ('<?xml version="1.0" encoding="UTF-8"?><Relationships xmlns="http://schemas.openxmlformats.org/package/2006/relationships">'
+             '<Relationship Id="rId1" Type="http://schemas.openxmlformats.org/officeDocument/2006/relationships/worksheet" Target="worksheets/sheet1.xml"/></Relationships>')
+    rels = RELS.replace("word/document.xml", "xl/workbook.xml")
+    return _zip([("[Content_Types].xml", XLSX_CT.encode()), ("_rels/.rels", rels.encode()), ("xl/workbook.xml", wb.encode()),
+                 ("xl/_rels/workbook.xml.rels", wrels.encode()), ("xl/worksheets/sheet1.xml", sheet.encode()), ("docProps/core.xml", CORE.encode())])
 
 
 def _odf(mt: str, body: str) -> bytes:
@@ -167,7 +192,7 @@ RTF1 = (r"{\rtf1\ansi\deff0{\fonttbl{\f0 Times;}}{\info{\title Sim Title}{\autho
 RTF2 = (r"{\rtf1\ansi\ansicpg1252 {\*\generator x;}{\colortbl;\red0\green0\blue0;}\pard\f0 caf\'e9 \u233? na\'efve {\i nested {\b deep}} text\par}").encode()
 HTML1 = (b"<!DOCTYPE html><html><head><title>Sim Title</title><meta name=\"author\" content=\"Sim Author\"><meta name=\"description\" content=\"Sim Description\">"
          b"<meta name=\"keywords\" content=\"k1, k2\"><style>p{color:red}</style><script>var x=1;</script></head><body><h1>Head</h1><p>para &amp; text</p>"
-         b"<table><tr><th>h</th><th>i</th></tr><tr><td>1</td><td>2</td></tr></table><ul><li>one</li><li>two</li></ul><img src=\"a.png\" alt=\"pic\"></body></html>")
+         b"<table><tr><th>h</th><th>i</th></tr><tr><td>1</td><td>2</td><td>3</td><td>4</td></tr><tr><td>only</td></tr></table><ul><li>one</li><li>two</li></ul><img src=\"a.png\" alt=\"pic\"></body></html>")
 MHTML1 = (b"From: <Saved by Sim>\r\nSubject: Sim page\r\nMIME-Version: 1.0\r\nContent-Type: multipart/related; type=\"text/html\"; boundary=\"----b1\"\r\n\r\n"
           b"------b1\r\nContent-Type: text/html; charset=\"utf-8\"\r\nContent-Transfer-Encoding: quoted-printable\r\nContent-Location: http://x/\r\n\r\n"
           b"<html><head><title>Sim page</title></head><body><p>mhtml body =C3=A9</p></body></html>\r\n------b1--\r\n")
@@ -184,12 +209,15 @@ def generated() -> dict[str, bytes]:
     g["gen/a.md"] = b"# Title\n\nSome *markdown* text.\n"
     g["gen/a.html"] = HTML1
     g["gen/a.htm"] = HTML1
+    g["gen/b.html"] = HTML1.replace(b"Sim Title", b"Other Title").replace(b"Head", b"Second heading").replace(b"Sim Author", b"Other Author")
+    g["gen/c.html"] = b"<html><head><title>Third</title></head><body><p>third body</p></body></html>"
     g["gen/a.mhtml"] = MHTML1
     g["gen/a.mht"] = MHTML1
     g["gen/a.rtf"] = RTF1
     g["gen/b.rtf"] = RTF2
     g["gen/a.docx"] = _docx()
     g["gen/a.dotx"] = g["gen/a.docx"]
+    g["gen/ragged.xlsx"] = _xlsx_ragged()
     g["gen/a.odt"] = _odt()
     g["gen/a.ott"] = g["gen/a.odt"]
     g["gen/a.ods"] = _ods()
